@@ -367,7 +367,10 @@ class ParseAPI(object):
                 if v0:
                     if s1 in ("even", "odd"):
                         is_y_odd = s1 == "odd"
-                        point = generator.points_for_x(v0)[is_y_odd]
+                        try:
+                            point = generator.points_for_x(v0)[is_y_odd]
+                        except ValueError:
+                            return None  # no curve point has this x coordinate
                     v1 = self.as_number(s1)
                     if v1:
                         if generator.contains_point(v0, v1):
